@@ -349,6 +349,7 @@ func TestC12_Replay(t *testing.T) {
 	h.RunReplay(t, "C12.enc", checkC12Enc)
 	h.RunReplay(t, "C12.stored", checkC12Stored)
 	h.RunReplay(t, "C12.small", checkC12Twin)
+	h.RunReplay(t, "C12.ratio", checkC12Twin)
 }
 
 // TestC12_Grid: the exact boundary for every limit and entry point, plus the default limit and a bomb.
@@ -700,6 +701,55 @@ func checkC12Stored(c C12Stored) h.Outcome {
 		}
 	}
 	return o
+}
+
+// padToRatio appends white space after the root until the document is EXACTLY r times as long as its DEFLATE
+// encoding at the given level (fixed-point iteration; nil when it does not settle).
+func padToRatio(base []byte, r, level int) []byte {
+	k := 0
+	for iter := 0; iter < 60; iter++ {
+		doc := append(append([]byte{}, base...), bytes.Repeat([]byte{' '}, k)...)
+		c := len(h.Deflate(doc, level))
+		want := r*c - len(base)
+		if want < 0 {
+			return nil
+		}
+		if want == k {
+			return doc
+		}
+		k = want
+	}
+	return nil
+}
+
+// TestC12_GridRatios: inflated length an exact small multiple of the compressed length, and exact powers of two
+// (+-1) — the sizes at which a growing read buffer is exactly full when the stream ends.
+func TestC12_GridRatios(t *testing.T) {
+	var cases []C12Twin
+	for _, kind := range []string{"response", "LogoutRequest", "LogoutResponse"} {
+		base := c12BaseXML(kind)
+		for _, level := range []int{-1, 1, 9} {
+			for _, r := range []int{3, 4, 5, 6, 8, 10, 12, 16, 32} {
+				if doc := padToRatio(base, r, level); doc != nil {
+					cases = append(cases, C12Twin{SP: h.BaseSP(), Kind: kind, RawXML: string(doc), Level: level, Source: fmt.Sprintf("ratio %d:1", r)})
+				}
+			}
+		}
+		for sh := 12; sh <= 20; sh++ {
+			for _, d := range []int{-1, 0, 1} {
+				n := 1<<sh + d
+				if n < len(base) {
+					continue
+				}
+				doc := append(append([]byte{}, base...), bytes.Repeat([]byte{'\n'}, n-len(base))...)
+				cases = append(cases, C12Twin{SP: h.BaseSP(), Kind: kind, RawXML: string(doc), Level: 6, Source: fmt.Sprintf("size 2^%d%+d", sh, d)})
+			}
+		}
+	}
+	if len(cases) < 60 {
+		t.Fatalf("harness: only %d ratio / size cases could be built", len(cases))
+	}
+	h.RunCases(t, "C12.ratio", cases, checkC12Twin)
 }
 
 func TestC12_PSmall(t *testing.T) { h.RunProp(t, "C12.small", genC12Small, checkC12Twin) }
